@@ -21,6 +21,11 @@ CLAIMS = {
    note="Documented automata are encoded in vstat/props/C10.py from Doc/src/cipher/modern.rst and the per-mode docstrings."),
 }
 
+CLAIMS["C13"] = dict(
+   technique="exception-escape analysis over the resolved call graph with handler matching; intrinsic raisers from AST type inference (X2), DER index discipline (X3) and interval facts on len() guards computed by abstract interpretation (X4); DER/unpad strictness by abstract interpretation of the decoders on distinguishing encodings and by region enumeration",
+   text="Decides that no exception class outside the documented set can escape any decoder entry point (DER objects, PEM, PKCS#8/PBES, unpad, RFC 1751, OpenSSH, RSA/DSA/ECC import_key) under an explicit exception model, and that the DER and padding decoders accept exactly the strict encodings of a distinguishing table. Totality and strictness are properties of the shape of the decoder code; round-trip identity on values is not decided.",
+   note="Exception model = explicit raises along resolved calls inside the decoder layer + X2/X3/X4 intrinsic raisers; reviewed tables X4_REVIEWED/X4_EDGES in vstat/props/C13.py carry one reason per entry. Python may raise more than the model knows.")
+
 NOT_YET = {}
 
 ALL = ["C%02d" % i for i in range(1, 21)]
